@@ -39,7 +39,7 @@ def sliceOps : List SExp → Option String
       pure (answer ((k.positions n).map ofNats))
   | [.atom "slice.ascending", s, n] => do
       let s ← slice? s; let n ← int? n
-      pure (answer (.ok (ofSlice (sliceToAscending s n))))
+      pure (optSlice (sliceToAscending s n) .value)
   | [.atom "slice.inclusive", s, off] => do
       let s ← slice? s; let off ← int? off
       pure (answer (.ok (ofSlice (sliceToInclusive s off))))
